@@ -331,7 +331,12 @@ class WorkQueue:
         cancel_awaitables: list[Awaitable[Any]],
     ) -> None:
         """Cancel a task with the streams produced by it."""
-        abort_result = task.computation.abort(reason)
+        computation = task.computation
+        pending_future = computation.pending_future
+        abort_result = computation.abort(reason)
+        if pending_future is not None:
+            # also wait until the cancelled computation has actually unwound
+            cancel_awaitables.append(pending_future)
         if is_awaitable(abort_result):
             cancel_awaitables.append(abort_result)
         task_node = self._task_nodes.get(task)
